@@ -19,14 +19,15 @@ FLOOR = {"quick": 10000, "thorough": 100000}
 ASSUMPTIONS = [
     "x64 disabled: Box bounds are the float32 rounding of the constructor arguments; candidates are float32-representable",
     "subnormal float32 values are excluded (XLA CPU flushes them to zero, comparison outcome is platform-defined)",
-    "not asserted either way (only 'answers with a scalar boolean, does not raise'): plain dict / reordered keys for a "
+    ("not asserted either way (only 'answers with a scalar boolean, does not raise'): plain dict / reordered keys for a "
     "Dict space, list for a Tuple space, Python lists for array spaces, in-bounds int/bool/float64 arrays for Box, "
     "integral-valued floats and bools for Discrete/MultiDiscrete, 0.0/1.0 floats for MultiBinary, +-inf sitting on an "
-    "infinite Box bound, complex numbers with zero imaginary part",
+     "infinite Box bound, complex numbers with zero imaginary part"),
     "values produced by sample()/canonical() must be finite numbers inside the inclusive bounds (a space of reals)",
-    "Discrete n <= 2**31-1 (members must be representable as int32); empty masks are excluded; sampling is exercised "
-    "for n <= 2**24+3 only (lerax materialises n probabilities: cost, not correctness)",
-    "contains is exercised eagerly only (behaviour under jit/vmap is C12's subject); sample is exercised eagerly, under vmap over keys and under jit",
+    ("Discrete n <= 2**31-1 (members must be representable as int32); empty masks are excluded; sampling is exercised "
+     "for n <= 2**24+3 only (lerax materialises n probabilities: cost, not correctness)"),
+    ("contains is exercised eagerly only (behaviour under jit/vmap is C12's subject); sample is exercised eagerly, "
+     "under vmap over keys and under jit"),
     "Dict == with permuted key order is not asserted; Box(-0.0) vs Box(0.0) equality is not asserted, only that == implies equal hashes",
     "Gymnasium 1.3.0 spaces (==, key ordering) are the reference for the round trip",
 ]
